@@ -48,6 +48,15 @@ func (check fieldConstraints) checkString(s string, t *meta.Type) error {
 }
 
 func (check fieldConstraints) checkRange(v val.Value, t *meta.Type) error {
+	if l, isList := v.(val.Listable); isList {
+		// each value of a leaf-list has to be valid on its own
+		for i := 0; i < l.Len(); i++ {
+			if err := check.checkRange(l.Item(i), t); err != nil {
+				return err
+			}
+		}
+		return nil
+	}
 	// a type and the typedefs it derives from each state a range, a derived range
 	// restricts further so the value has to satisfy every one of them
 	for _, r := range t.Range() {
